@@ -472,7 +472,7 @@ func (s *Store) updateSessionCheck(tx WriteTxn, idx uint64, session *structs.Ses
 				updatedCheck.Output = fmt.Sprintf("Session '%s' is invalid", session.ID)
 			}
 
-			if err := s.ensureCheckTxn(tx, idx, true, updatedCheck); err != nil {
+			if err := s.ensureCheckTxn(tx, idx, false, updatedCheck); err != nil {
 				return err
 			}
 		}
